@@ -39,7 +39,7 @@ ASSUMPTIONS = [
 TIMEOUT = {"quick": 60, "thorough": 240}
 DEADLINE = {"quick": 75, "thorough": 1000}
 MIN_DECIDING = {"quick": 25, "thorough": 300}
-NCASES = {"quick": 64, "thorough": 2400}
+NCASES = {"quick": 110, "thorough": 2400}
 
 KEY_P21 = "sample-time-limit-taken-over-non-integer-n"
 KEY_CONST = "bif-variable-name-becomes-symbolic-constant"
